@@ -275,7 +275,8 @@ func (p *Policy) sanitize(r io.Reader, w io.Writer) error {
 			if !ok {
 				aa, matched := p.matchRegex(token.Data)
 				if !matched {
-					if _, ok := p.setOfElementsToSkipContent[token.Data]; ok {
+					if _, ok := p.setOfElementsToSkipContent[token.Data]; ok && !isVoidElement(token.Data) {
+						// a void element has no content to skip
 						skipElementContent = true
 						skippingElementsCount++
 					}
